@@ -213,7 +213,7 @@ def engine_s_main(tier, seed):
     for text, sched in vs:
       violations.append(dict(text=text, kwargs=dict(tier=tier, scenario=idx,
                                                     schedule=','.join(map(str, sched)),
-                                                    shared='|'.join(sorted(scen.shared)))))
+                                                    shared='|'.join(sorted(getattr(scen, 'shared', []))))))
   cov['solver_s'] = round(cov['solver_s'], 2)
   return dict(coverage=cov, violations=violations, infra=infra,
               functions=['gin.config:enter_scope', 'gin.config:exit_scope', 'gin.config:current_scope'])
